@@ -116,6 +116,16 @@ VH_EXPORT int vp_h06d_ts(const unsigned char* in, unsigned char* out) {
 	size_t want = ((static_cast<uint64_t>(t.Seconds) >> 34) != 0) ? 15 : ((t.Nanoseconds != 0 || (static_cast<uint64_t>(t.Seconds) >> 32) != 0) ? 10 : 6);
 	return o.ns == want;
 }
+// Inputs in the F5 class (seconds need the 96-bit form): the ONLY tolerated deviation is the recorded one - the two fields of the
+// 96-bit layout in the order seconds, nanoseconds.  Anything else (another form, other bytes) is still a violation.
+VH_EXPORT int va_h06d_ts_f5(const unsigned char* in) { return va_h06d_ts(in) && vk_h06d_ts(in) == 1; }
+VH_EXPORT int vp_h06d_ts_f5(const unsigned char* in, unsigned char* out) {
+	CBinTimestamp t = load_ts(in);
+	Outs o; both([&](IMsgPackWriter& w) { w.WriteValue(t); }, o); dump(o, out);
+	if (o.rcs != vh::OK || !same_bytes(o) || o.ns != 15) return 0;
+	if (o.s[0] != 0xC7 || o.s[1] != 12 || o.s[2] != 0xFF) return 0;
+	return mp::be(o.s + 3, 8) == (uint64_t)t.Seconds && mp::be(o.s + 11, 4) == (uint32_t)t.Nanoseconds;
+}
 // time_point / duration -> CBinTimestamp: same instant, nanoseconds in 0..999999999 (or out_of_range)
 template <class D> static inline int prop_to_ts(const unsigned char* in, unsigned char* out, bool asDuration) {
 	int64_t cnt = vh::rd<int64_t>(in);
@@ -174,6 +184,7 @@ DEF_TS(s, std::chrono::seconds) DEF_TS(min, std::chrono::minutes) DEF_TS(h, std:
 //@ OBL {"name": "h06c_bin", "prop": "vp_h06c_bin", "in": 8, "out": 16, "unwind": 52, "bounds": "every size_t count", "desc": "BeginBinary: bin8/16/32"}
 //@ OBL {"name": "h06c_str", "prop": "vp_h06c_str", "in": 8, "out": 16, "unwind": 52, "bounds": "string length 0..40 (fixstr/str8 threshold at 31/32), symbolic first and last byte", "desc": "WriteValue(string_view): header + verbatim payload"}
 //@ OBL {"name": "h06d_ts", "family": "h06d_ts", "prop": "vp_h06d_ts", "assume": "va_h06d_ts", "known": "vk_h06d_ts", "in": 12, "out": 16, "unwind": 52, "bounds": "every int64 seconds, nanoseconds 0..999999999", "desc": "WriteValue(CBinTimestamp): timestamp 32/64/96 per spec, most compact"}
+//@ OBL {"name":"h06d_ts_f5","only_if_known":"F5","prop":"vp_h06d_ts_f5","assume":"va_h06d_ts_f5","in":12,"out":16,"unwind":52,"bounds":"every timestamp whose seconds need the 96-bit form","desc":"known finding F5 pinned down: ext8(12) type -1 with fields in the order seconds, nanoseconds - and nothing else"}
 //@ OBL {"name": "h06d_tp_ns", "prop": "vp_h06d_tp_ns", "in": 8, "out": 16, "unwind": 4, "bounds": "|count| < 2^24 (division-by-constant kernel: the full 64-bit range does not close within the cap on any back end); thorough: 2^31", "desc": "To(time_point<ns>, CBinTimestamp&): same instant, 0 <= ns <= 999999999", "cassume": ["RD64(in,0) < (1LL<<24) && RD64(in,0) > -(1LL<<24)"], "backends": ["kissat", "default"]}
 //@ OBL {"name": "h06d_tp_ns_T", "prop": "vp_h06d_tp_ns", "in": 8, "out": 16, "unwind": 4, "bounds": "|count| < 2^31", "desc": "To(time_point<ns>, CBinTimestamp&): same instant, 0 <= ns <= 999999999", "cassume": ["RD64(in,0) < (1LL<<31) && RD64(in,0) > -(1LL<<31)"], "backends": ["kissat", "default"], "tier": "thorough", "supersedes": "h06d_tp_ns", "cap_s": 1800}
 //@ OBL {"name": "h06d_tp_us", "prop": "vp_h06d_tp_us", "in": 8, "out": 16, "unwind": 4, "bounds": "|count| < 2^24 (division-by-constant kernel: the full 64-bit range does not close within the cap on any back end); thorough: 2^31", "desc": "To(time_point<us>, CBinTimestamp&)", "cassume": ["RD64(in,0) < (1LL<<24) && RD64(in,0) > -(1LL<<24)"], "backends": ["kissat", "default"]}
